@@ -120,6 +120,28 @@ pub struct Plan {
     pub history: History,
     /// query timestamps (seconds)
     pub queries: Vec<i64>,
+    /// fractional second of each query datetime (a value >= 1e9 on a second 59 is chrono's
+    /// leap second); look-ups key by the whole second
+    #[serde(default)]
+    pub query_ns: Vec<u32>,
+    /// also build a second curve with the same node count, first and last node but
+    /// different interior dates, and look both up alternately (state shared across
+    /// objects must not leak from one curve into the other)
+    #[serde(default)]
+    pub sibling: bool,
+}
+
+pub fn query_ndt(ts: i64, ns: u32) -> NaiveDateTime {
+    let base = ts_to_ndt(ts);
+    if ns == 0 {
+        return base;
+    }
+    chrono::NaiveTime::from_num_seconds_from_midnight_opt(
+        base.and_utc().timestamp().rem_euclid(86_400) as u32,
+        ns,
+    )
+    .map(|t| base.date().and_time(t))
+    .unwrap_or(base)
 }
 
 // ------------------------------------------------------------------ generation
@@ -184,6 +206,7 @@ pub fn generate(rng: &mut Rng, tier: Tier) -> Plan {
     };
     let df_like = interp == "linear_zero_rate" || rng.chance(0.5);
     let wide_magnitude = rng.chance(0.08);
+    let subsecond_queries = rng.chance(0.1);
     let many_vars = rng.chance(0.1);
     let mut nodes: Vec<NodeSpec> = Vec::new();
     let prefix = "u_";
@@ -315,6 +338,20 @@ pub fn generate(rng: &mut Rng, tier: Tier) -> Plan {
             share_vars: rng.chance(0.25),
         },
         history: History::Exhaustive { depth },
+        query_ns: if subsecond_queries {
+            queries
+                .iter()
+                .map(|q| match rng.below(4) {
+                    0 => rng.below(1_000_000_000) as u32,
+                    // a leap second, where the whole second is :59
+                    1 if q.rem_euclid(60) == 59 => 1_000_000_000 + rng.below(1_000_000_000) as u32,
+                    _ => 0,
+                })
+                .collect()
+        } else {
+            vec![]
+        },
+        sibling: rng.chance(0.1),
         queries,
     }
 }
@@ -768,6 +805,7 @@ fn v(sig: &str, msg: String) -> Fail {
 struct Ctx<'a> {
     model: &'a Model,
     queries: &'a [i64],
+    query_ns: &'a [u32],
     initial_values: Vec<f64>,
     memo: HashMap<(Tags, usize), (R, Option<R>)>,
     ctor: &'static str,
@@ -902,7 +940,7 @@ fn probe(
     let mut h = Fnv::new();
     let first_ts = model.nodes[0].ts;
     for (qi, q) in c.queries.iter().enumerate() {
-        let d = ts_to_ndt(*q);
+        let d = query_ndt(*q, c.query_ns.get(qi).copied().unwrap_or(0));
         // the names whose sensitivities are compared: all of them, or for long curves the
         // interval's neighbourhood, both ends and a spread of far nodes (a sensitivity booked
         // to any other variable is still caught by the unknown-variable / value checks)
@@ -1176,14 +1214,15 @@ pub fn execute(plan: &Plan, obs: &mut Obs) -> Result<(), Fail> {
     };
     // values at the start of the history
     let mut initial = Vec::new();
-    for q in &plan.queries {
-        let d = ts_to_ndt(*q);
+    for (qi, q) in plan.queries.iter().enumerate() {
+        let d = query_ndt(*q, plan.query_ns.get(qi).copied().unwrap_or(0));
         let n = call(P, "Curve::value", || sut.value(&d))?;
         initial.push(see(&n).real);
     }
     let mut c = Ctx {
         model: &model,
         queries: &plan.queries,
+        query_ns: &plan.query_ns,
         initial_values: initial,
         memo: HashMap::new(),
         ctor,
@@ -1205,6 +1244,45 @@ pub fn execute(plan: &Plan, obs: &mut Obs) -> Result<(), Fail> {
         obs.count("reach.padded_or_empty_curve_id");
     }
     probe(&sut, tags0, &mut c, "init", &[], obs)?;
+    if plan.sibling && model.nodes.len() >= 3 {
+        // same count, same first and last node, interior dates moved half-way to the next node
+        let mut s2 = plan.setup.clone();
+        s2.nodes.sort_by_key(|n| n.ts);
+        let n2 = s2.nodes.len();
+        for i in 1..n2 - 1 {
+            let step = (s2.nodes[i + 1].ts - s2.nodes[i].ts) / 2;
+            s2.nodes[i].ts += step;
+        }
+        let distinct = s2.nodes.windows(2).all(|w| w[0].ts < w[1].ts);
+        if distinct && s2 != plan.setup {
+            let sut2 = build(&s2)?;
+            let model2 = Model {
+                nodes: s2.nodes.clone(),
+                id: s2.id.clone(),
+                interp: s2.interp.clone(),
+                base: s2.index_base.map(|b| b.get()),
+            };
+            let tags2 = model2.initial(&s2);
+            let mut initial2 = Vec::new();
+            for (qi, q) in plan.queries.iter().enumerate() {
+                let d = query_ndt(*q, plan.query_ns.get(qi).copied().unwrap_or(0));
+                let n = call(P, "Curve::value", || sut2.value(&d))?;
+                initial2.push(see(&n).real);
+            }
+            let mut c2 = Ctx {
+                model: &model2,
+                queries: &plan.queries,
+                query_ns: &plan.query_ns,
+                initial_values: initial2,
+                memo: HashMap::new(),
+                ctor,
+            };
+            probe(&sut2, tags2, &mut c2, "sibling", &[], obs)?;
+            // and the first curve again, after the other one has been looked up
+            probe(&sut, tags0, &mut c, "init-after-sibling", &[], obs)?;
+            obs.count("reach.two_curves_with_equal_ends_interleaved");
+        }
+    }
     match &plan.history {
         History::Exhaustive { depth } => {
             let mut seq = Vec::new();
@@ -1282,8 +1360,19 @@ pub fn shrink(plan: &Plan) -> Vec<Plan> {
         for i in 0..plan.queries.len() {
             let mut p = plan.clone();
             p.queries = vec![plan.queries[i]];
+            p.query_ns = vec![plan.query_ns.get(i).copied().unwrap_or(0)];
             out.push(p);
         }
+    }
+    if plan.sibling {
+        let mut p = plan.clone();
+        p.sibling = false;
+        out.push(p);
+    }
+    if plan.query_ns.iter().any(|x| *x != 0) {
+        let mut p = plan.clone();
+        p.query_ns = vec![];
+        out.push(p);
     }
     // fewer nodes (keep >= 2)
     if plan.setup.nodes.len() > 2 {
